@@ -177,14 +177,16 @@ pub trait Engine {
     fn known_finding(&self, _v: &Violation) -> Option<&'static str> {
         None
     }
-    /// like known_finding for a worker crash/hang on case k
-    fn known_finding_crash(
-        &self,
-        _k: u64,
-        _seed: u64,
-        _tier: Tier,
-        _kind: &str,
-    ) -> Option<&'static str> {
+    /// A short description of case k that is known *before* it is run (e.g. which
+    /// dependency path it will take); computed in the worker, under the case's CPU
+    /// limit, announced to the supervisor and used to classify a crash or hang of
+    /// that case. The supervisor itself never regenerates or runs a case.
+    fn crash_tag(&self, _k: u64, _seed: u64, _tier: Tier) -> Option<String> {
+        None
+    }
+    /// like known_finding for a worker crash/hang (`kind`) on a case announced
+    /// with `tag`
+    fn known_finding_crash(&self, _kind: &str, _tag: Option<&str>) -> Option<&'static str> {
         None
     }
 }
@@ -281,8 +283,37 @@ pub fn arm_cpu_timer(secs: i64) {
     }
 }
 
+/// true in `--replay` and `--minimise` processes: oracles that compare repeated
+/// runs (reproducibility) repeat more often there, so that a violation that only
+/// shows with some probability (the system under test drew from a real entropy
+/// source) is kept by the minimiser only if it shows reliably, and replays.
+pub static REPLAY_MODE: std::sync::atomic::AtomicU32 = std::sync::atomic::AtomicU32::new(0);
+/// number of repeated comparison runs: 1 in a worker, 8 while minimising, 32 in a replay
+pub fn repeat_runs() -> u32 {
+    REPLAY_MODE.load(std::sync::atomic::Ordering::Relaxed).max(1)
+}
+
+/// Address-space limit per worker / replay process (VERIF_WORKER_MEM_MB, default
+/// 2048): a case that makes the system under test allocate without bound ends as
+/// an allocation failure (abort) of that one process, attributed to that case,
+/// instead of exhausting the machine and taking the whole check down with it.
+pub fn limit_memory() {
+    let mb: u64 = std::env::var("VERIF_WORKER_MEM_MB")
+        .ok()
+        .and_then(|v| v.parse().ok())
+        .unwrap_or(2048);
+    let lim = libc::rlimit {
+        rlim_cur: mb << 20,
+        rlim_max: mb << 20,
+    };
+    unsafe {
+        libc::setrlimit(libc::RLIMIT_AS, &lim);
+    }
+}
+
 pub fn worker_main(engine: &dyn Engine, tier: Tier, vseed: u64, start: u64, step: u64, end: u64) {
     install_panic_hook();
+    limit_memory();
     let info = engine.info();
     let out = std::io::stdout();
     let mut stats = Stats::default();
@@ -298,6 +329,11 @@ pub fn worker_main(engine: &dyn Engine, tier: Tier, vseed: u64, start: u64, step
         }
         let seed = case_seed(vseed, info.property, k);
         arm_cpu_timer(info.cpu_limit_s);
+        if let Some(tag) = engine.crash_tag(k, seed, tier) {
+            let mut o = out.lock();
+            let _ = writeln!(o, "T {tag}");
+            let _ = o.flush();
+        }
         let mut case_stats = Stats::default();
         let r = std::panic::catch_unwind(std::panic::AssertUnwindSafe(|| {
             engine.run_case(k, seed, tier, &mut case_stats)
@@ -389,6 +425,8 @@ struct W {
     activity: std::sync::Arc<std::sync::atomic::AtomicU64>,
     child: Child,
     current: Option<u64>,
+    /// crash tag announced for the current case
+    tag: Option<String>,
     last_progress: Instant,
     done: bool,
     gen: u64,
@@ -548,6 +586,7 @@ pub fn supervise(engine: &dyn Engine, tier: Tier, vseed: u64) -> RunOutcome {
                 ),
                 activity,
                 current: None,
+                tag: None,
                 last_progress: Instant::now(),
                 done: false,
                 gen: 0,
@@ -557,7 +596,7 @@ pub fn supervise(engine: &dyn Engine, tier: Tier, vseed: u64) -> RunOutcome {
 
     let mut stats = Stats::default();
     let mut found: Vec<Found> = vec![];
-    let mut crashes: Vec<(u64, &'static str)> = vec![]; // (k, "abort"|"hang")
+    let mut crashes: Vec<(u64, &'static str, Option<String>)> = vec![]; // (k, "abort"|"hang", crash tag)
     let mut harness_errors: Vec<(u64, String)> = vec![];
     let mut truncated = false;
     let mut digests: BTreeMap<u64, String> = BTreeMap::new();
@@ -587,7 +626,11 @@ pub fn supervise(engine: &dyn Engine, tier: Tier, vseed: u64) -> RunOutcome {
                         let (tag, rest) = l.split_at(1.min(l.len()));
                         let rest = rest.trim_start();
                         match tag {
-                            "S" => ws[wi].current = rest.parse().ok(),
+                            "S" => {
+                                ws[wi].current = rest.parse().ok();
+                                ws[wi].tag = None;
+                            }
+                            "T" => ws[wi].tag = Some(rest.to_string()),
                             "V" => {
                                 if let Ok(v) = serde_json::from_str::<Value>(rest) {
                                     found.push(Found {
@@ -645,6 +688,7 @@ pub fn supervise(engine: &dyn Engine, tier: Tier, vseed: u64) -> RunOutcome {
                                         } else {
                                             "abort"
                                         },
+                                        ws[wi].tag.take(),
                                     ));
                                     let next = k + step;
                                     if next < n_cases {
@@ -691,7 +735,7 @@ pub fn supervise(engine: &dyn Engine, tier: Tier, vseed: u64) -> RunOutcome {
                 let _ = ws[wi].child.wait();
                 ws[wi].gen += 1;
                 if let Some(k) = ws[wi].current {
-                    crashes.push((k, "hang"));
+                    crashes.push((k, "hang", ws[wi].tag.take()));
                     let next = k + step;
                     if next < n_cases {
                         let g = ws[wi].gen;
@@ -780,8 +824,8 @@ pub fn supervise(engine: &dyn Engine, tier: Tier, vseed: u64) -> RunOutcome {
     }
     let mut aborted_nonviolation = 0u64;
     let mut aborted_list: Vec<Value> = vec![];
-    for (k, kind) in &crashes {
-        if let Some(id) = engine.known_finding_crash(*k, case_seed(vseed, prop, *k), tier, kind) {
+    for (k, kind, tag) in &crashes {
+        if let Some(id) = engine.known_finding_crash(kind, tag.as_deref()) {
             if known.contains_key(id) {
                 *known_hit.entry(id.to_string()).or_insert(0) += 1;
                 continue;
@@ -932,6 +976,13 @@ fn sanitize(s: &str) -> String {
 
 /// Delta-debugging style minimisation: take the first shrink candidate that still
 /// fails with the same class, repeat until no candidate does or the budget ends.
+///
+/// The candidates are run in a child process (`--minimise`) under the same CPU
+/// and memory limits as a worker: a shrunk case may hang or allocate without
+/// bound even when the original did not (e.g. a stop condition removed by the
+/// shrinker on a tree whose other stop condition is broken), and that must cost
+/// one candidate, not the supervisor. A child that dies is restarted from its
+/// last accepted case, past the candidate it died on.
 fn minimise(
     engine: &dyn Engine,
     case: &Value,
@@ -939,40 +990,148 @@ fn minimise(
     detail: &str,
     known: &BTreeMap<String, String>,
 ) -> (Value, String, u64) {
-    install_panic_hook();
+    let info = engine.info();
+    let dir = verif_dir().join("replays");
+    let _ = std::fs::create_dir_all(&dir);
+    let tag = format!("{}-{}", std::process::id(), info.property);
+    let inp = dir.join(format!(".min-{tag}.in.tmp"));
+    let out = dir.join(format!(".min-{tag}.out.tmp"));
+    let trying = dir.join(format!(".min-{tag}.trying.tmp"));
     let t0 = Instant::now();
-    let budget = Duration::from_secs(20);
+    let budget = Duration::from_secs(25);
     let mut cur = case.clone();
     let mut cur_detail = detail.to_string();
     let mut replays = 0u64;
+    let mut skip = 0u64;
+    let exe = std::env::current_exe().expect("current_exe");
+    for _attempt in 0..6 {
+        if t0.elapsed() > budget {
+            break;
+        }
+        let doc = json!({
+            "property": info.property, "class": class, "detail": cur_detail, "case": cur,
+            "known": known.keys().collect::<Vec<_>>(), "skip": skip, "replays": replays,
+            "budget_ms": budget.saturating_sub(t0.elapsed()).as_millis() as u64,
+        });
+        let _ = std::fs::write(&inp, doc.to_string());
+        let _ = std::fs::remove_file(&out);
+        let _ = std::fs::remove_file(&trying);
+        let Ok(mut child) = Command::new(&exe)
+            .args(["--minimise", &inp.display().to_string(), &out.display().to_string(), &trying.display().to_string()])
+            .stdin(Stdio::null())
+            .stdout(Stdio::null())
+            .stderr(Stdio::null())
+            .spawn()
+        else {
+            break;
+        };
+        let died = loop {
+            match child.try_wait() {
+                Ok(Some(st)) => break st.code() != Some(0),
+                Ok(None) => {
+                    if t0.elapsed() > budget + Duration::from_secs(15) {
+                        let _ = child.kill();
+                        let _ = child.wait();
+                        break true;
+                    }
+                    std::thread::sleep(Duration::from_millis(10));
+                }
+                Err(_) => break true,
+            }
+        };
+        let mut progressed = false;
+        if let Ok(txt) = std::fs::read_to_string(&out) {
+            if let Ok(v) = serde_json::from_str::<Value>(&txt) {
+                if !v["case"].is_null() {
+                    progressed = v["case"] != cur;
+                    cur = v["case"].clone();
+                    cur_detail = v["detail"].as_str().unwrap_or(&cur_detail).to_string();
+                    replays = v["replays"].as_u64().unwrap_or(replays);
+                }
+            }
+        }
+        if !died {
+            break;
+        }
+        // died on candidate number `trying` of the round that started from `cur`
+        let t = std::fs::read_to_string(&trying)
+            .ok()
+            .and_then(|x| x.trim().parse::<u64>().ok())
+            .unwrap_or(0);
+        skip = if progressed { t + 1 } else { skip.max(t + 1) };
+    }
+    for f in [&inp, &out, &trying] {
+        let _ = std::fs::remove_file(f);
+    }
+    (cur, cur_detail, replays)
+}
+
+/// `--minimise <in> <out> <trying>`: the child side of `minimise`.
+pub fn minimise_file(
+    inp: &str,
+    out: &str,
+    trying: &str,
+    get_engine: &dyn Fn(&str) -> Option<Box<dyn Engine>>,
+) -> i32 {
+    install_panic_hook();
+    limit_memory();
+    REPLAY_MODE.store(8, std::sync::atomic::Ordering::Relaxed);
+    let Ok(txt) = std::fs::read_to_string(inp) else { return 2 };
+    let Ok(doc) = serde_json::from_str::<Value>(&txt) else { return 2 };
+    let Some(engine) = get_engine(doc["property"].as_str().unwrap_or("")) else { return 2 };
+    let engine = engine.as_ref();
+    let class = doc["class"].as_str().unwrap_or("").to_string();
+    let known: Vec<String> = doc["known"]
+        .as_array()
+        .map(|a| a.iter().filter_map(|x| x.as_str().map(|s| s.to_string())).collect())
+        .unwrap_or_default();
+    let cpu_limit = engine.info().cpu_limit_s;
+    let t0 = Instant::now();
+    let budget = Duration::from_millis(doc["budget_ms"].as_u64().unwrap_or(20_000));
+    let mut cur = doc["case"].clone();
+    let mut cur_detail = doc["detail"].as_str().unwrap_or("").to_string();
+    let mut replays = doc["replays"].as_u64().unwrap_or(0);
+    let mut skip = doc["skip"].as_u64().unwrap_or(0);
+    let save = |cur: &Value, d: &str, n: u64| {
+        let _ = std::fs::write(out, json!({"case": cur, "detail": d, "replays": n}).to_string());
+    };
     'outer: loop {
         let cands = engine.shrink(&cur);
-        for c in cands {
+        for (i, c) in cands.into_iter().enumerate() {
+            if (i as u64) < skip {
+                continue;
+            }
             if replays >= 3000 || t0.elapsed() > budget {
                 break 'outer;
             }
             replays += 1;
+            let _ = std::fs::write(trying, format!("{i}"));
             let mut st = Stats::default();
+            arm_cpu_timer(cpu_limit);
             let r = std::panic::catch_unwind(std::panic::AssertUnwindSafe(|| {
                 engine.replay(&c, &mut st)
             }));
+            arm_cpu_timer(0);
             if let Ok(vs) = r {
                 if let Some(v) = vs.iter().find(|v| {
                     v.class == class
                         && !engine
                             .known_finding(v)
-                            .map(|id| known.contains_key(id))
+                            .map(|id| known.iter().any(|k| k == id))
                             .unwrap_or(false)
                 }) {
                     cur = c;
                     cur_detail = v.detail.clone();
+                    skip = 0;
+                    save(&cur, &cur_detail, replays);
                     continue 'outer;
                 }
             }
         }
         break;
     }
-    (cur, cur_detail, replays)
+    save(&cur, &cur_detail, replays);
+    0
 }
 
 fn replay_in_child(path: &std::path::Path, watchdog: Duration) -> bool {
@@ -1042,6 +1201,8 @@ pub fn replay_file(
             REPLAY_HANG_MSG = Some(msg.into_bytes());
         }
     }
+    limit_memory();
+    REPLAY_MODE.store(32, std::sync::atomic::Ordering::Relaxed);
     arm_cpu_timer(cpu_limit);
     let vs = if doc["case"].is_null() {
         // regenerate from (seed, index); a crash or hang reproduces by itself
